@@ -14,7 +14,10 @@ def ctx_of(input_ast, vars_=None, macros=None, parents=None, results=None):
     return {"input": enc(input_ast), "parents": [enc(p) for p in (parents or [])],
             "vars": [{"name": X.cps(n), "v": enc(v)} for n, v in (vars_ or [])],
             "macros": [{"name": X.cps(n), "e": X.strip(e)} for n, e in (macros or [])],
-            "results": [{"name": X.cps(n), "v": (enc(v) if v is not None else NOTHING)} for n, v in (results or [])]}
+            "results": [{"name": X.cps(n), "v": (enc(v) if v is not None else NOTHING)} for n, v in (results or [])],
+            # the environment the harness process is started with, as far as it is known: [name, set, value]
+            "env": [{"name": X.cps(n), "set": True, "v": X.cps(v)} for n, v in sorted(HARNESS_ENV.items())] +
+                   [{"name": X.cps(n), "set": False, "v": []} for n in HARNESS_ENV_ABSENT]}
 
 
 def select_case(expr_text, input_ast, vars_=None, macros=None, extra=None):
